@@ -668,6 +668,7 @@ def plan(tier, seed):
     tasks.append(("doc-examples", {}))
     tasks.append(("small-exhaustive", {}))
     tasks.append(("newapi", {"n": 300 if quick else 5000}))
+    tasks += [("pair", {"shard": i, "n": 40 if quick else 1500}) for i in range(2 if quick else 8)]
     if not quick:
         for i in range(4):
             tasks.append(("fuzz", {"shard": i, "runs": 150000}))
@@ -690,6 +691,49 @@ def run_task(name, kw, ctx):
         _newapi_task(kw, ctx)
     elif name == "fuzz":
         _fuzz_task(kw, ctx)
+    elif name == "pair":
+        _pair_task(kw, ctx)
+
+
+PAIR_HOT = ["functions/sfdl_tokenizer.py", "variables/functions.py"]
+
+
+def check_pair(case):
+    """Two threads read the SAME definition text at the same time (a receive thread decoding a function while the application
+    builds one): each must get the documented shape, as a single reader does. Threads switch at generated line-level
+    preemptions inside the tokenizer / structure generator."""
+    from vf.conc import run_threads
+
+    inner = {"text": case["text"], "mut": None}
+    if check_case(inner) is not None:
+        return None  # judged by the sequential tasks
+    outs, hits = run_threads([lambda: check_case(inner), lambda: check_case(inner)], case["sched"])
+    case["_hits"] = hits
+    for val, exc in outs:
+        if exc is not None:
+            return Failure(f"concurrent-readers:raises:{type(exc).__name__}", {k: v for k, v in case.items() if k != "_hits"}, _exc(exc), "the documented shape, as for a single reader")
+        if val is not None:
+            return Failure("concurrent-readers:" + val.bucket, {k: v for k, v in case.items() if k != "_hits"}, val.observed, val.expected)
+    return None
+
+
+def _pair_task(kw, ctx):
+    from hypothesis import strategies as st
+
+    sched = st.builds(lambda sd, pp: {"seed": sd, "switch": 0.5, "pprob": pp, "hot": PAIR_HOT}, st.integers(1, 2**31), st.sampled_from([0.02, 0.1, 0.3]))
+
+    def body(pair):
+        gen, sc = pair
+        case, meta = build_case(dict(gen, mut=None), {})
+        if case is None:
+            return None
+        pc = {"text": case["text"], "mut": None, "pair": 1, "sched": sc}
+        f = check_pair(pc)
+        hits = pc.pop("_hits", 0)
+        ctx.case(pc, hits > 0, ["pair:two-concurrent-readers"] + (["pair:preempted-inside-the-reader"] if hits else []))
+        return f
+
+    ctx.hyp(st.tuples(cases(max_depth=4), sched), body, kw["n"], seed_offset=900 + kw["shard"], shrink=False)
 
 
 def _gen_task(kw, ctx):
@@ -1029,6 +1073,8 @@ def _fuzz_task(kw, ctx):
 
 
 def replay(case, ctx):
+    if case.get("pair"):
+        return check_pair(dict(case))
     if case.get("newapi"):
         return check_newapi(case)
     return check_case(case, ctx, wildcard_ok=bool(case.get("wild")))
